@@ -150,9 +150,9 @@ func init() {
 	propInfo["C07"] = &PropInfo{Level: "exploration", Rule: "each evaluation is one simulated concurrent run: 2-8 client goroutines share one DB handle; every client parks before every store call and at operation boundaries, exactly one runs at a time, and a seeded scheduler (splitmix64 from the run's schedSeed, or the explicit schedule of a replay file) chooses who proceeds; blocking on the single writer lock is modelled (a client whose next call is Begin(true) is not runnable while a write transaction is open). The recorded invoke/return history, stamped with the global decision counter, is checked for linearizability against the sequential reference model with porcupine (Illegal = violation, Unknown = inconclusive and only counted); write-conflict errors must have no effect; after the run the stored state passes the consistency audit. A second binary built with -race replays run files on real bbolt/badger with a race-detector-invisible hand-off. Non-trivial: the linearizability check ran on a history; distinct = distinct hash of (backend, client op lists, schedule)", Assumptions: append([]string{"preemption happens only at store calls and operation boundaries: the handle's only shared state is behind the store interface, so these are all the points at which clients can observe each other; memory-level interleavings inside clover are left to the race detector run", "bbolt runs pre-grow the file so that commits never re-mmap (a re-mmap waits for open read transactions, which cannot be modelled from outside the engine)"}, commonAssumptions...), RequiredProbes: []string{"context-switches", "preempted-inside-write-tx", "commit-conflict-observed"}}
 	extraJobs["C07"] = func(tier string) []Job {
 		return []Job{
-			{Engine: "conc", Backends: []string{"mem-sw-livecur", "mem-sw-livecur", "mem-opt-snapcur", "mem-opt-snapcur", "mem-opt-livecur", "mem-sw-snapcur"}, Quick: 6000, Thorough: 300000},
+			{Engine: "conc", Backends: []string{"mem-sw-livecur", "mem-sw-livecur", "mem-opt-snapcur", "mem-opt-snapcur", "mem-opt-livecur", "mem-sw-snapcur"}, Quick: 14000, Thorough: 400000},
 			{Engine: "conc", Backends: []string{"bbolt", "badger-mem", "badger-mem"}, Quick: 600, Thorough: 30000},
-			{Engine: "conc", Backends: []string{"bbolt", "badger-mem"}, Quick: 120, Thorough: 4000, Params: map[string]string{"race": "1"}},
+			{Engine: "conc", Backends: []string{"bbolt", "badger-mem"}, Quick: 80, Thorough: 4000, Params: map[string]string{"race": "1"}},
 		}
 	}
 }
